@@ -241,3 +241,13 @@ package retrypolicy
 //@   requires 0 <= asref(hp, *hedgepolicy.hedgePolicy).config.maxHedges && asref(hp, *hedgepolicy.hedgePolicy).config.maxHedges <= 1073741824
 //@   havoc
 //@   modifies *
+
+// Build gives the policy its own copy of the scalar configuration (the embedded Base*Policy objects stay shared: see the
+// trusted base, "builders are not touched after Build").
+//@ func (*config).Build
+//@   builder
+//@   requires c != nil
+//@   let tc := asref(result, *retryPolicy).config
+//@   ensures [C02.build.own_config+C13.build.own_config] result != nil && typeis(result, *retryPolicy) && tc != nil && tc != c && fresh(tc) && tc.maxRetries == c.maxRetries && tc.maxDuration == c.maxDuration && tc.maxDelay == c.maxDelay && tc.delayFactor == c.delayFactor && tc.delayMin == c.delayMin && tc.delayMax == c.delayMax && tc.jitter == c.jitter && tc.jitterFactor == c.jitterFactor && tc.returnLastFailure == c.returnLastFailure
+//@   ensures [C16.retry.build_own_listeners] tc.onAbort == c.onAbort && tc.onRetry == c.onRetry && tc.onRetryScheduled == c.onRetryScheduled && tc.onRetriesExceeded == c.onRetriesExceeded && tc.BaseFailurePolicy == c.BaseFailurePolicy && tc.BaseDelayablePolicy == c.BaseDelayablePolicy && tc.BaseAbortablePolicy == c.BaseAbortablePolicy
+//@   modifies nothing
